@@ -13,6 +13,7 @@ import (
 	"sync"
 	"testing"
 	"time"
+	"unicode/utf8"
 
 	"github.com/bartventer/httpcache"
 	"github.com/bartventer/httpcache/store/driver"
@@ -637,28 +638,40 @@ func scenarioSwappedFiles() []string {
 		})
 		return m
 	}
-	_ = conn.Set("key-a", []byte("value of a"))
-	fa := files()
-	_ = conn.Set("key-b", []byte("value of b, another one"))
-	var pa, pb string
-	for p := range files() {
-		if _, ok := fa[p]; ok {
-			pa = p
-		} else {
-			pb = p
+	// short keys (one file name each), and long keys of equal length that differ only near their start: the file-system backend
+	// splits those into a chain of directories, and the two files have the same base name
+	tail := strings.Repeat("p", 230)
+	for _, pr := range [][3]string{{"key-a", "key-b", "moved-file"}, {"http://a.test/alice/" + tail, "http://a.test/bobby/" + tail, "moved-file-long-keys"}} {
+		ka, kb, name := pr[0], pr[1], pr[2]
+		before := files()
+		_ = conn.Set(ka, []byte("value of a"))
+		fa := files()
+		_ = conn.Set(kb, []byte("value of b, another one"))
+		var pa, pb string
+		for p := range files() {
+			if _, old := before[p]; old {
+				continue
+			}
+			if _, ok := fa[p]; ok {
+				pa = p
+			} else {
+				pb = p
+			}
 		}
+		if pa == "" || pb == "" {
+			lines = append(lines, fmt.Sprintf("SCENARIO prop=C17 code=C17:moved-file-accepted name=%s | harness: files not found SKIP\n", name))
+			continue
+		}
+		bb, _ := os.ReadFile(pb)
+		_ = os.WriteFile(pa, bb, 0o600)
+		got, gerr := conn.Get(ka)
+		v := "ok"
+		if gerr == nil {
+			v = "BAD"
+		}
+		lines = append(lines, fmt.Sprintf("SCENARIO prop=C17 code=C17:moved-file-accepted name=%s | the file of the first key (%d bytes) replaced by the file of the second: get(first) error=%v returned=%q %s\n", name, len(ka), gerr != nil, string(got), v))
 	}
-	if pa == "" || pb == "" {
-		return []string{"SCENARIO prop=C17 code=C17:moved-file-accepted name=moved-file | harness: files not found SKIP\n"}
-	}
-	bb, _ := os.ReadFile(pb)
-	_ = os.WriteFile(pa, bb, 0o600)
-	got, gerr := conn.Get("key-a")
-	v := "ok"
-	if gerr == nil {
-		v = "BAD"
-	}
-	lines = append(lines, fmt.Sprintf("SCENARIO prop=C17 code=C17:moved-file-accepted name=moved-file | the file of key-a replaced by the file of key-b: get(key-a) error=%v returned=%q %s\n", gerr != nil, string(got), v))
+	var v string
 	// through the transport: two URIs, their entry files exchanged
 	dir2, err := os.MkdirTemp("", "verif-sc-")
 	if err != nil {
@@ -743,6 +756,64 @@ func scenarioMultiLineHit() string {
 	return fmt.Sprintf("SCENARIO prop=C09 code=C09:multi-line-request-not-served name=multi-line-hit | the same request twice, the stored response fresh: not_served=%q %s\n", strings.Join(bad, " ; "), v)
 }
 
+// C03: bytes above 0x7f in a query reach the key function as they are, whether or not they form UTF-8; URIs that differ in one such
+// byte are different resources.  An origin that answers with the query it was asked for (in hex), every answer fresh for ten minutes.
+type rawQueryOrigin struct{ calls int }
+
+func (o *rawQueryOrigin) RoundTrip(req *http.Request) (*http.Response, error) {
+	o.calls++
+	body := fmt.Sprintf("q=%x", req.URL.RawQuery)
+	return &http.Response{Status: "200 OK", StatusCode: 200, Proto: "HTTP/1.1", ProtoMajor: 1, ProtoMinor: 1,
+		Header: http.Header{"Cache-Control": {"max-age=600"}, "Date": {time.Now().UTC().Format(http.TimeFormat)}},
+		Body:   io.NopCloser(strings.NewReader(body)), ContentLength: int64(len(body)), Request: req}, nil
+}
+
+// every ordered pair (stored first, requested second, requested again) of URIs that differ only in raw query bytes; a pair whose
+// first member spells out U+FFFD and whose second is not UTF-8 is reported under its own code (the index is JSON: F37)
+func scenarioRawQueryBytes() []string {
+	qs := []string{"caf\xe9", "caf\xe8", "caf\xc3", "caf\xc3\xa9", "caf\xef\xbf\xbd", "caf%E9", "caf\xff\xfe"}
+	var plain, viaIndex []string
+	n := 0
+	for i, a := range qs {
+		for j, b := range qs {
+			if i == j {
+				continue
+			}
+			n++
+			dsn := registerConn(memcache.Open())
+			org := &rawQueryOrigin{}
+			rt := httpcache.NewTransport(dsn, httpcache.WithUpstream(org))
+			ua, ub := "http://a.test/x?q="+a, "http://a.test/x?q="+b
+			scDo(rt, "GET", ua, nil)
+			r1 := scDo(rt, "GET", ub, nil)
+			r2 := scDo(rt, "GET", ub, nil)
+			unregisterConn(dsn)
+			want := fmt.Sprintf("q=%x", "q="+b)
+			if strings.HasPrefix(r1.status, "ERR") || strings.HasPrefix(r2.status, "ERR") {
+				continue // the request was refused, which reuses nothing
+			}
+			if r1.body != want || r2.body != want {
+				d := fmt.Sprintf("stored %q, requested %q: got %s %q then %s %q", a, b, r1.status, r1.body, r2.status, r2.body)
+				if strings.Contains(a, "\xef\xbf\xbd") && !utf8.ValidString(b) && r1.body == want {
+					viaIndex = append(viaIndex, d)
+				} else {
+					plain = append(plain, d)
+				}
+			}
+		}
+	}
+	verdict := func(l []string) string {
+		if len(l) > 0 {
+			return "BAD"
+		}
+		return "ok"
+	}
+	return []string{
+		fmt.Sprintf("SCENARIO prop=C03 code=C03:raw-query-bytes-confused name=raw-query-bytes | pairs=%d wrong=%q %s\n", n, strings.Join(plain, " ; "), verdict(plain)),
+		fmt.Sprintf("SCENARIO prop=C03 code=C03:nonutf8-ref-id name=raw-query-bytes-index | the third request of the pair is answered from the entry of the first URI: wrong=%q %s\n", strings.Join(viaIndex, " ; "), verdict(viaIndex)),
+	}
+}
+
 func TestScenarios(t *testing.T) {
 	out := os.Getenv("VERIF_OUT")
 	if out == "" {
@@ -756,6 +827,7 @@ func TestScenarios(t *testing.T) {
 	lines = append(lines, scenarioSwappedFiles()...)
 	lines = append(lines, scenarioMultiLineSelecting())
 	lines = append(lines, scenarioMultiLineHit())
+	lines = append(lines, scenarioRawQueryBytes()...)
 	lines = append(lines, scenarioUnprintableSelecting())
 	lines = append(lines, scenarioErrorBody(false), scenarioErrorBody(true))
 	lines = append(lines, scenarioNonCanonicalRequestKeys())
